@@ -29,6 +29,8 @@ body = body.replace("Fixpoint sexec (n : nat) (fn : string)", "Fixpoint sexec (n
 body = re.sub(r"\bsexec n' fn\b", "sexec n' vs fn", body)
 body = re.sub(r"\b(seval|scond|seval_each|scond_for|seval_incs) callf funs clos fn\b", r"\1 callf funs clos vs fn", body)
 # call frames: CreateContext allocates the whole vector, then parameters (and captures) are stored by index
+body = body.replace("enough_args (fparams d) vs", "enough_args (fparams d) avs").replace("enough_args (cparams cd) vs", "enough_args (cparams cd) avs")
+assert "sexec n' f (fbody d) (bind_params (fparams d) avs [], []) g" in body
 body = body.replace("sexec n' f (fbody d) (bind_params (fparams d) avs [], []) g",
                     "sexec n' (fun_vars d) f (fbody d) (sbind_params (fun_vars d) (fparams d) avs (sfresh (fun_vars d)), []) g")
 body = body.replace("sexec n' (clo_name oid) (cbody cd) (bind_captured cap (bind_params (cparams cd) avs []), []) g",
@@ -134,20 +136,24 @@ Definition scallf (cm : catchfn) (funs : list fundef) (clos : list clodef) (n : 
       match find_fun funs f with
       | None => Some (EX (err "undefined function"), g)
       | Some d =>
-          match sexec cm funs clos n (fun_vars d) f (fbody d) (sbind_params (fun_vars d) (fparams d) avs (sfresh (fun_vars d)), []) g with
-          | Fuel => None
-          | Res c _ g' => Some (call_result c, g')
-          end
+          if enough_args (fparams d) avs then
+            match sexec cm funs clos n (fun_vars d) f (fbody d) (sbind_params (fun_vars d) (fparams d) avs (sfresh (fun_vars d)), []) g with
+            | Fuel => None
+            | Res c _ g' => Some (call_result c, g')
+            end
+          else Some (EX (VErr "too few arguments"), g)
       end
   | CClo id oid cap =>
       match nth_error clos id with
       | None => Some (EX (VErr "no such closure"), g)
       | Some cd =>
-          match sexec cm funs clos n (clo_vars cd) (clo_name oid) (cbody cd)
-                  (sbind_captured (clo_vars cd) cap (sbind_params (clo_vars cd) (cparams cd) avs (sfresh (clo_vars cd))), []) g with
-          | Fuel => None
-          | Res c _ g' => Some (call_result c, g')
-          end
+          if enough_args (cparams cd) avs then
+            match sexec cm funs clos n (clo_vars cd) (clo_name oid) (cbody cd)
+                    (sbind_captured (clo_vars cd) cap (sbind_params (clo_vars cd) (cparams cd) avs (sfresh (clo_vars cd))), []) g with
+            | Fuel => None
+            | Res c _ g' => Some (call_result c, g')
+            end
+          else Some (EX (VErr "too few arguments"), g)
       end
   end.
 
